@@ -10,6 +10,7 @@ import (
 
 	"github.com/protobom/protobom/pkg/formats"
 	"github.com/protobom/protobom/pkg/native"
+	"github.com/protobom/protobom/pkg/native/serializers"
 	"github.com/protobom/protobom/pkg/sbom"
 	"github.com/protobom/protobom/pkg/writer"
 )
@@ -115,6 +116,10 @@ type hashList struct {
 type SPDX3 struct{}
 
 func (spdx3 *SPDX3) Serialize(bom *sbom.Document, _ *native.SerializeOptions, _ interface{}) (interface{}, error) {
+	if err := serializers.CheckDocument(bom); err != nil {
+		return nil, fmt.Errorf("unable to serialize to SPDX 3: %w", err)
+	}
+
 	now := time.Now()
 	spdxSBOM := sbomType{
 		Type: "Sbom",
